@@ -46,6 +46,116 @@ type persistMachine struct {
 	NProc int        `json:"nproc"`
 	Sos   []string   `json:"sos"`
 	Att   [][]int    `json:"att"`
+	Fresh bool       `json:"fresh"`
+}
+
+var freshCounter int
+
+// freshName renames a dynamically named opcode to a member of the same family that this process
+// has (very probably) never created: the loading process of the model's fresh case.
+func freshName(n string) string {
+	freshCounter++
+	k := freshCounter
+	letters := func(k int) string {
+		s := ""
+		for {
+			s += string(rune('a' + k%26))
+			k /= 26
+			if k == 0 {
+				return s
+			}
+		}
+	}
+	switch {
+	case strings.HasPrefix(n, "rsets"):
+		return "rsets" + strconv.Itoa(8+k)
+	case strings.HasSuffix(n, "st"): // push4st pull4st calla4st callo4st ret4st: the stack name is free
+		return strings.TrimSuffix(n, "st") + "sv" + letters(k)
+	}
+	return ""
+}
+
+func registryHas(n string) bool {
+	for _, op := range procbuilder.Allopcodes {
+		if op.Op_get_name() == n {
+			return true
+		}
+	}
+	return false
+}
+
+// loadFresh plays the fresh loading process: the saved file mentions dynamic opcode names that the
+// registry of this process does not contain yet.
+func loadFresh(r *evid.Run, saved []byte, d persistMachine, ctx map[string]interface{}) (checked bool) {
+	text := string(saved)
+	renamed := map[string]string{}
+	for _, n := range d.Dom.Ops {
+		if f := freshName(n); f != "" && !registryHas(f) {
+			renamed[n] = f
+			text = strings.ReplaceAll(text, `"`+n+`"`, `"`+f+`"`)
+		}
+	}
+	if len(renamed) == 0 {
+		return false
+	}
+	ctx["file"] = text
+	bj := new(bondmachine.Bondmachine_json)
+	if err := json.Unmarshal([]byte(text), bj); err != nil {
+		r.Inconclusive("fresh file does not parse: %v", err)
+		return false
+	}
+	var re *bondmachine.Bondmachine
+	var perr error
+	func() {
+		defer func() {
+			if e := recover(); e != nil {
+				perr = fmt.Errorf("panic: %v", e)
+			}
+		}()
+		re = bj.Dejsoner()
+		re.Init()
+	}()
+	if perr != nil {
+		r.Violate("fresh-load-error", fmt.Sprintf("loading a file whose dynamic opcodes %v are new to the process fails: %v", renamed, perr), ctx)
+		return true
+	}
+	for di, dom := range re.Domains {
+		if len(dom.Op) != len(bj.Domains[di].Op) {
+			r.Violate("fresh-load-drops-opcode", fmt.Sprintf("domain %d of the file has %d opcodes, the loaded machine %d", di, len(bj.Domains[di].Op), len(dom.Op)), ctx)
+			return true
+		}
+		for oi, op := range dom.Op {
+			want := bj.Domains[di].Op[oi]
+			if op == nil {
+				r.Violate("fresh-load-drops-opcode", fmt.Sprintf("opcode %s of the file (new to the loading process) is a nil entry in the loaded machine", want), ctx)
+				return true
+			}
+			if op.Op_get_name() != want {
+				r.Violate("fresh-load-wrong-opcode", fmt.Sprintf("opcode %s of the file is loaded as %s", want, op.Op_get_name()), ctx)
+				return true
+			}
+		}
+	}
+	for _, f := range renamed {
+		if !registryHas(f) {
+			r.Violate("fresh-load-not-registered", fmt.Sprintf("opcode %s is not in the registry after loading", f), ctx)
+			return true
+		}
+	}
+	var saved2 []byte
+	func() {
+		defer func() {
+			if e := recover(); e != nil {
+				perr = fmt.Errorf("panic: %v", e)
+			}
+		}()
+		saved2, _ = json.Marshal(re.Jsoner())
+	}()
+	if perr != nil || string(saved2) != text {
+		ctx["second"] = string(saved2)
+		r.Violate("fresh-resave-differs", fmt.Sprintf("a file loaded by a fresh process and saved again differs (%v)", perr), ctx)
+	}
+	return true
 }
 
 // saveLoad is the real persistence round trip.
@@ -353,7 +463,7 @@ func runC11(r *evid.Run) {
 	}
 	states += pres.Distinct
 	transitions += pres.Generated
-	var machines, simulated, verilogCompared int64
+	var machines, simulated, verilogCompared, freshLoads int64
 	err = readNDJSON(rowPath, func(b []byte) error {
 		var d persistMachine
 		if err := json.Unmarshal(b, &d); err != nil {
@@ -364,8 +474,19 @@ func runC11(r *evid.Run) {
 			r.Inconclusive("cannot build catalogue machine %v: %v", d, err)
 			return nil
 		}
-		machines++
 		ctx := map[string]interface{}{"machine": d}
+		if d.Fresh {
+			saved, err := json.Marshal(bm.Jsoner())
+			if err != nil {
+				r.Inconclusive("save: %v", err)
+				return nil
+			}
+			if loadFresh(r, saved, d, ctx) {
+				freshLoads++
+			}
+			return nil
+		}
+		machines++
 		label := fmt.Sprintf("ops=%d threaded=%d ws+%d sos=%v", len(d.Dom.Ops), d.Dom.Threaded, d.Dom.WsExtra, d.Sos)
 		re, saved, err := saveLoad(bm)
 		if err != nil {
@@ -441,5 +562,6 @@ func runC11(r *evid.Run) {
 	r.Set("catalogue_machines", machines)
 	r.Set("catalogue_verilog_compared", verilogCompared)
 	r.Set("catalogue_simulated", simulated)
-	r.Set("evaluations", topoStates+machines)
+	r.Set("catalogue_fresh_process_loads", freshLoads)
+	r.Set("evaluations", topoStates+machines+freshLoads)
 }
